@@ -150,6 +150,8 @@ class Check:
         "MontProg": {"C08"},
         "Enc": {"C04", "C05", "C19", "C07"},
         "Derive": {"C08", "C18"},
+        "Pair": {"C03", "C11"},
+        "Msm": {"C02", "C10", "C20"},
     }
     ARITH_ALL = {"C01", "C02", "C03", "C04", "C05", "C06", "C07", "C09", "C11", "C12", "C14", "C15", "C17", "C18"}
 
@@ -228,6 +230,24 @@ class Check:
         return {"C04", "C05", "C19"}
 
     @staticmethod
+    def pair_props(name):
+        n = name.lower()
+        if "multi" in n or "product" in n or "miller" in n:
+            return {"C11", "C03"}
+        return {"C03", "C11"}
+
+    @staticmethod
+    def msm_props(name):
+        n = name.lower()
+        if "wnaf" in n or "recommended" in n or "recommend" in n:
+            return {"C02", "C20"}
+        if "sumofproducts" in n or "sum_of_products" in n or "pippinger" in n or "pippenger" in n:
+            return {"C10"}
+        if "precomp256" in n or "precomp_256" in n:
+            return {"C02", "C10"}
+        return {"C02"}
+
+    @staticmethod
     def derive_props(name):
         n = name.lower()
         if "sqrt" in n or "legendre" in n:
@@ -240,6 +260,8 @@ class Check:
         self._translated("PP.Props.GenArith", "GenArith.lean", self.arith_props, self.ARITH_ALL, "lake_genarith_s")
         self._translated("PP.Props.GenEnc", "GenEnc.lean", self.enc_props, self.ENC_ALL, "lake_genenc_s")
         self._translated("PP.Props.GenDerive", "GenDerive.lean", self.derive_props, self.DERIVE_ALL, "lake_genderive_s")
+        self._translated("PP.Props.GenPair", "GenPair.lean", self.pair_props, {"C03", "C11"}, "lake_genpair_s")
+        self._translated("PP.Props.GenMsm", "GenMsm.lean", self.msm_props, {"C02", "C10", "C20"}, "lake_genmsm_s")
 
     def _translated(self, mod, proofs_file, props_of, all_props, tkey):
         if self.pid not in all_props:
